@@ -20,7 +20,7 @@ func VerifC03_ecdsa_blind_ops() {
 		// (thorough); bit length pinned by the top byte
 		bl := (c.Params().BitSize + 7) / 8
 		if vBound("C03_blind_key_all_lengths", 0, 1) == 1 {
-			enc = vBytesC("blind_key", 1, 140)
+			enc = vBytesC("blind_key", 1, 75)
 		} else {
 			lens := []int{bl - 1, bl, bl + 1, bl + 2, 2 * bl, 2*bl + 9}
 			enc = vBytes("blind_key", 0, 0)
